@@ -66,17 +66,45 @@ func isolateScenarioFile(chains []string) string {
 	return c11lib.WriteFile(".yaml", string(b))
 }
 
+func grpcIsolateScenarioFile() string {
+	cfg := map[string]any{
+		"variable_sources": []any{
+			map[string]any{"name": "global", "type": "variables", "variables": map[string]any{"g": "gg"}},
+		},
+		"calls": []any{
+			map[string]any{
+				"name": "h1", "tag": "t1", "call": "target.TargetService.Hello",
+				"metadata": map[string]string{"x-const": "c"},
+				"payload":  `{"name":"n"}`,
+			},
+			map[string]any{
+				"name": "h2", "tag": "t2", "call": "target.TargetService.Hello",
+				"metadata": map[string]string{"x-echo": "{{.request.h1.postprocessor.hello}}", "x-g": "{{.source.global.g}}"},
+				"payload":  `{"name":"{{.request.h1.postprocessor.hello}}"}`,
+			},
+		},
+		"scenarios": []any{
+			map[string]any{"name": "s1", "weight": 1, "min_waiting_time": 0, "requests": []string{"h1", "h2"}},
+		},
+	}
+	b, _ := yaml.Marshal(cfg)
+	return c11lib.WriteFile(".yaml", string(b))
+}
+
 // isolateRun: one pool of n guns, the shots of `order` (instance index per shot) answered with `toks`; returns what
 // each shot echoed (the echoes of one shot joined with "/").
-func isolateRun(n int, order []int, toks []string, chains []string) ([]string, string) {
-	t, addr, err := newTarget("httpscen")
+func isolateRun(kind string, n int, order []int, toks []string, chains []string) ([]string, string) {
+	t, addr, err := newTarget(kind)
 	if err != nil {
 		return nil, "ENV " + err.Error()
 	}
 	defer t.stop()
 	t.script = append([]string{}, toks...)
+	if t.grpc != nil {
+		t.grpc.Script = t.script
+	}
 	kv := map[string]string{"isolate": strings.Join(chains, ";")}
-	y := poolYAML("httpscen", addr, kv, n, map[string]any{"type": "once", "times": 1})
+	y := poolYAML(kind, addr, kv, n, map[string]any{"type": "once", "times": 1})
 	setupMu.Lock()
 	m, err := c11lib.NewManual(y, n)
 	setupMu.Unlock()
@@ -123,13 +151,14 @@ func runIsolate(kv map[string]string) string {
 		return "ENV toks/order"
 	}
 	chains := strings.Split(kv["chains"], ";")
-	together, bad := isolateRun(n, order, toks, chains)
+	kind := kv["kind"]
+	together, bad := isolateRun(kind, n, order, toks, chains)
 	if bad != "" {
 		return bad
 	}
 	var solo []string
 	for j := range order {
-		s, bad := isolateRun(1, []int{0}, toks[j:j+1], chains)
+		s, bad := isolateRun(kind, 1, []int{0}, toks[j:j+1], chains)
 		if bad != "" {
 			return bad
 		}
